@@ -17,8 +17,10 @@ import sys
 
 from vlib import core, corr
 
-GENERATORS = ["c13_consts"]
-DEPENDS = ["Builder", "Amplification", "BuilderProofs", "AmplificationProofs", "C13Consts", "Base", "Tok", "C13"]
+GENERATORS = ["c13_consts", "c13_writers"]
+DEPENDS = ["Builder", "Amplification", "BuilderProofs", "AmplificationProofs", "C13Consts", "Base", "Tok", "C13",
+           "C13Writers", "Writers", "WritersBase", "WritersFrames", "WritersProofs", "WritersCorollaries", "WritersFlight",
+           "StreamSend", "StreamSendP", "Varint", "BuilderFlight", "FlightBudget"]
 TRUSTED_BASE = [
     "extraction (ExtrOcamlBasic only; Z kept as the extracted inductive) + coq/extract/driver.ml for running the models",
     "correspondence harness harness/props/c13.py + harness/vlib/corr.py (decides what 'agree' means)",
@@ -26,11 +28,23 @@ TRUSTED_BASE = [
     "position; Buffer bounds checks and CryptoPair.encrypt_packet = +16 bytes are oracles); the per-path ledger of "
     "connection.py (packet handlers' decisions are inputs of the model)",
     "tools/gen/c13_consts.py (AST extraction of the size constants, frame-type sets, the 3x factor)",
+    "tools/gen/c13_writers.py (AST extraction of every frame writer's start_frame(type, capacity=...) call, its buf.push_* "
+    "sequence, the *_CAPACITY constants, the shape of packet.push_ack_frame and the order of the writer calls in "
+    "_write_application / _write_handshake / datagrams_to_send); the control flow of the writers and of the packet loops in "
+    "coq/model/Writers.v is written by hand from the source and tied by harness/props/c13_writers.py (recorded builder "
+    "sessions of real connections and direct writer calls replayed through the extracted model exec_writers)",
+    "the decision inputs of the writer model (which frames are pending, field values, the C10 stream sender states) are "
+    "universally quantified, not derived from a model of the whole connection",
     "connection-level oracle: in-process pair driver and wire observer in harness/props/c13.py (pull_quic_header and the "
     "Initial keys of the library itself are used to recognise Initial packets)",
 ]
 ASSUMPTIONS = [
-    "total_le_budget / amplification_bound assume the caller discipline of connection.py's frame writers (frames only inside "
+    "the *_connection theorems (writers_disciplined, total_le_budget_connection, amplification_bound_connection, "
+    "flight_le_budget_connection, flight_budget_connection) need no discipline hypothesis: it is proved of the writer model "
+    "for field values in their wire ranges (dts_ok: varints < 2^62, connection ids <= 20 bytes, stream senders reachable by a "
+    "legitimate C10 history and not reset); the flight variants additionally assume no PATH_CHALLENGE before an ACK in a packet "
+    "(dts_ackfirst; false for connection.py: writers_flight_refuted, candidate finding F14)",
+    "total_le_budget / amplification_bound (builder level, kept) assume the caller discipline of connection.py's frame writers (frames only inside "
     "an open packet, declared capacity >= frame type size, bytes pushed only into the buffer handed out by start_frame, i.e. "
     "after a frame was started in the open packet, each push <= remaining_buffer_space)",
     "amplification_bound is about send rounds taken through the budgeted branch of datagrams_to_send; the _close_pending "
@@ -1102,8 +1116,59 @@ def _oracle_only(ctx, bs, cases):
                 ctx.violation("impl-violation", "builder: %s" % bad[0], c, signature=bad[1])
 
 
+def writers_tie(ctx, rng):
+    """coq/model/Writers.v against the frame writers of connection.py: the builder sessions recorded from the simulated
+    connections of this run, API-driven scenarios that reach every writer, and direct writer calls with field values at the
+    edge of their wire ranges / spaces at the edge of the capacities."""
+    from props import c13_writers as cw
+    import time
+    stats = {"sim_sessions": len(cw.SESSIONS)}
+    n0 = len(cw.SESSIONS)
+    t0 = time.time()
+    scen_err = {}
+    for _ in range(ctx.n(40, 600)):
+        try:
+            cw.api_scenario(rng, _mk_pair, CADDR, SADDR)
+        except Exception as e:   # exceptions escaping the public API are C05's subject; counted here
+            scen_err[type(e).__name__] = scen_err.get(type(e).__name__, 0) + 1
+    stats["api_scenario_sessions"] = len(cw.SESSIONS) - n0
+    stats["api_scenario_exceptions"] = scen_err
+    n1 = len(cw.SESSIONS)
+    derr = {}
+    for spec in cw.direct_specs(rng, ctx.n(400, 8000)):
+        try:
+            cw.direct_session(spec, _crypto(spec["cfg"]["mds"]))
+        except Exception as e:
+            derr[type(e).__name__] = derr.get(type(e).__name__, 0) + 1
+            if len(derr) <= 2 and sum(derr.values()) <= 2:
+                ctx.violation("impl-violation", "writers: direct call raised %r" % (e,), {"suite": "writers_direct", "case": spec},
+                              signature={"rule": "writer_raises", "level": "writer", "exception": type(e).__name__})
+    stats["direct_sessions"] = len(cw.SESSIONS) - n1
+    stats["direct_exceptions"] = derr
+    # candidate finding F14 (C08's flight budget; not a C13 sentence): PATH_CHALLENGE before ACK, replayed on real connections
+    # through the public API on every run (informational: measured ledger before / after the offending datagrams_to_send)
+    try:
+        _STATE_on = cw._STATE["on"]
+        cw._STATE["on"] = False
+        stats["f14_replay"] = [cw.f14_search(_mk_pair, CADDR, CADDR2, SADDR, pings=p) for p in (0, 60)]
+    except Exception as e:
+        stats["f14_replay"] = repr(e)
+    finally:
+        cw._STATE["on"] = _STATE_on
+    stats["drivers_wall_s"] = round(time.time() - t0, 1)
+    # direct and API sessions first (they are few and reach every writer), then the simulated runs
+    sessions = list(corr.load_corpus("C13", "writers")) + cw.SESSIONS[n0:] + cw.SESSIONS[:n0]
+    cw.run_tie(ctx, sessions, stats, max_model=None if ctx.thorough else 30000)
+    del cw.SESSIONS[:]
+    return stats
+
+
 def run(ctx):
     rng = ctx.rng
+    _install_recorder()
+    from props import c13_writers as cw
+    cw.install()
+    del cw.SESSIONS[:]
     # ---- builder model <-> QuicPacketBuilder
     bs = builder_suite(ctx)
     batches = [(corr.load_corpus("C13", "builder"), "corpus"), (b_boundary(), ""), (b_gen(rng, ctx.n(2500, 30000)), ""),
@@ -1141,12 +1206,31 @@ def run(ctx):
          "until the oracle's own latest-possible validation point"})
     cov["evaluations"] += agg.get("schedules", 0)
     cov["traces_validated_against_impl"] = ls.stats["cases"]
+    # ---- writer model <-> connection.py's frame writers (always runs; oracle only when the model does not build)
+    cov["writers_tie"] = writers_tie(ctx, rng)
+    cov["writers_tie_rule"] = ("every builder session of the simulated connections of this run, of API scenarios (streams, "
+                               "FIN, reset, stop_sending, DATAGRAM, PING, connection ids, migration, close) and of direct writer "
+                               "calls with boundary field values is replayed through the extracted writer model: per writer call "
+                               "the outcome, the (frame type, capacity, pushed bytes) of every start_frame and the builder "
+                               "observers must agree; the oracle checks capacity >= bytes written on the implementation alone")
+    cov["evaluations"] += cov["writers_tie"].get("distinct_sessions", 0)
     return cov
 
 
 def replay(ctx, rep):
     case = rep["case"]
     res = {}
+    if isinstance(case, dict) and case.get("suite") in ("writers", "writers_direct"):
+        from props import c13_writers as cw
+        sess = case["case"]
+        if case.get("suite") == "writers_direct":
+            cw.install()
+            sess = cw.direct_session(sess, _crypto(sess["cfg"]["mds"]))
+        try:
+            got = core.run_model("exec_writers", [cw.encode(sess)], shards=1)[0]
+        except Exception as ex:
+            got = repr(ex)
+        return {"writers": {"impl": cw.expected(sess), "model": got, "oracle": cw.oracle(sess)}}
     if isinstance(case, dict) and case.get("suite") == "conn":
         _install_recorder()
         r = sim_run(dict(case["case"]), want_trace=True)
